@@ -239,7 +239,7 @@ func (e *Engine) decide(cond *Term) bool {
 		}
 		return d
 	}
-	if traceQueries && e.st.Paths <= 2 {
+	if traceQueries && e.st.Paths <= 12 {
 		fmt.Fprintf(os.Stderr, "Q path=%d %s\n", e.st.Paths, cond.s)
 	}
 	ft := e.check(cond)
